@@ -321,3 +321,51 @@ pub fn run(_r: &mut Rng, _iters: usize) -> Option<Cex> {
     }
     None
 }
+
+/// BOUNDED: a sink that fails once, at every position, while help is printed for commands of either group: the call
+/// during which it failed must return the error (C14 for the help code the derive macros emit)
+pub fn run_fail(_r: &mut Rng, _iters: usize) -> Option<Cex> {
+    for line in ["help", "base1 --help", "help base1 get", "status --help", "help reboot", "base1 -n 7 get cmd -h", "nosuch --help"] {
+        for fail_at in 1..200usize {
+            let sink = Sink(Rc::new(RefCell::new(SinkState::default())));
+            sink.0.borrow_mut().fail_at = Some(fail_at);
+            let calls = Rc::new(RefCell::new(Vec::new()));
+            let mut handler = Handler { calls: calls.clone(), outputs: vec![vec![]], n: 0 };
+            let cbuf: &'static mut [u8] = Box::leak(vec![0u8; 64].into_boxed_slice());
+            let hbuf: &'static mut [u8] = Box::leak(vec![0u8; 16].into_boxed_slice());
+            let mut cli = match CliBuilder::default().writer(sink.clone()).command_buffer(cbuf).history_buffer(hbuf).prompt("$ ").build() {
+                Ok(c) => c,
+                Err(_) => continue,
+            };
+            let mut reached = false;
+            for &b in line.as_bytes().iter().chain(b"\r".iter()) {
+                let before = sink.0.borrow().failed;
+                let res = cli.process_byte::<Group<'_>, _>(b, &mut handler);
+                let failed_now = sink.0.borrow().failed > before;
+                if failed_now {
+                    reached = true;
+                }
+                if failed_now && res.is_ok() {
+                    let mut out = Vec::new();
+                    for e in &sink.0.borrow().evs {
+                        if let SinkEv::W(b) = e {
+                            out.extend_from_slice(b)
+                        }
+                    }
+                    return Some(Cex {
+                        input: format!("line {:?}, sink fails at its operation {} (during byte {:#04x})", line, fail_at, b),
+                        expected: "Err from the call during which the sink failed".into(),
+                        actual: format!("Ok(()); terminal received {:?}", String::from_utf8_lossy(&out)),
+                    });
+                }
+                if res.is_err() != failed_now {
+                    return Some(Cex { input: format!("line {:?}, sink fails at operation {}", line, fail_at), expected: "Err iff the sink failed".into(), actual: format!("{:?}", res.is_ok()) });
+                }
+            }
+            if !reached {
+                break;
+            }
+        }
+    }
+    None
+}
